@@ -18,14 +18,21 @@ package main
 //	ret_mstep{step, dirs}             ONE step of DeleteMetricsSegmentData: mem -> segmetadata.DeleteMetricsSegmentKey,
 //	                                  meta -> mmeta.RemoveMetricsSegments
 //	ret_mem{org}                      segment keys present in the in-memory rotated metadata
+//	ret_pick{org, keys, tables}       the three in-memory structures a rotated log segment lives in: all =
+//	                                  allSegmentMicroIndex, rev = which of `keys` the reverse index resolves
+//	                                  (GetMicroIndex), picked = keys returned by segmetadata.FilterSegmentsByTime over
+//	                                  all time for `tables` (walks tableSortedMetadata: the selection every search
+//	                                  starts from)
 //	ret_inodes{dir}                   calculateSegmentInodeCount(dir)
 
 import (
 	"fmt"
+	"math"
 	"path"
 	"sort"
 	"time"
 
+	dtu "github.com/siglens/siglens/pkg/common/dtypeutils"
 	"github.com/siglens/siglens/pkg/config"
 	"github.com/siglens/siglens/pkg/retention"
 	segmetadata "github.com/siglens/siglens/pkg/segment/metadata"
@@ -56,6 +63,30 @@ func init() {
 		}
 		sort.Strings(keys)
 		return keys, nil
+	})
+	reg("ret_pick", func(c Cmd) (interface{}, error) {
+		org := c.i64("org", 0)
+		all, rev, picked := []string{}, []string{}, []string{}
+		for k := range segmetadata.GetAllSegKeysForOrg(org) {
+			all = append(all, k)
+		}
+		// reverse index: looked up key by key through the locked accessor queries use
+		for _, k := range strList(c, "keys") {
+			if _, ok := segmetadata.GetMicroIndex(k); ok {
+				rev = append(rev, k)
+			}
+		}
+		// the selection every search starts from: per-table list filtered by time (all time here)
+		sel, _, _ := segmetadata.FilterSegmentsByTime(&dtu.TimeRange{StartEpochMs: 0, EndEpochMs: math.MaxUint64}, strList(c, "tables"), org)
+		for _, m := range sel {
+			for k := range m {
+				picked = append(picked, k)
+			}
+		}
+		sort.Strings(all)
+		sort.Strings(rev)
+		sort.Strings(picked)
+		return map[string]interface{}{"all": all, "rev": rev, "picked": picked}, nil
 	})
 	reg("ret_inodes", func(c Cmd) (interface{}, error) {
 		n, err := retention.VerifSegmentInodeCount(c.str("dir"))
